@@ -381,6 +381,10 @@ class Normalizer(object):
         if params is not None and len(pos_args) <= len(params) and not (set(params[:len(pos_args)]) & {k.arg for k in e.keywords}):
             extra_kw = [(params[i], self.n(a)) for i, a in enumerate(pos_args)]
             pos_args = []
+        if d in ('tuple', 'list') and len(e.args) == 1 and not e.keywords and isinstance(e.args[0], (ast.List, ast.Tuple)) \
+                and not any(isinstance(x, ast.Starred) for x in e.args[0].elts):
+            # tuple([a, b]) is (a, b); list((a, b)) is [a, b]
+            return (d,) + tuple(self.n(x) for x in e.args[0].elts)
         if len(e.args) == 1 and not e.keywords and isinstance(e.args[0], ast.IfExp) and d:
             ie = e.args[0]
             return mk_ifexp(self.n(ie.test), self.n(ast.Call(func=e.func, args=[ie.body], keywords=[])),
